@@ -139,9 +139,76 @@ V('vtuse-dec-mismatch-pass', ['C06', 'C01', 'C07'], 'R-VTUSE|R-EXC', SW, ("     
                                                                     "        if vt_check != set_vt(dna_sequence=dna_sequence, vt_length=len(vt_check)):\n            pass"))
 
 # ---------------------------------------------------------------- R-ALPHA
-V('alpha-encode-actg', CODER + ['C02'], 'R-ALPHA', SW, ('monitor, record_path, vertex_index, dna_sequence, nucleotides = Monitor(), [], start_index, "", "ACGT"',
+V('alpha-encode-actg', CODER + ['C02'], 'R-ALPHA|R-WALK', SW, ('monitor, record_path, vertex_index, dna_sequence, nucleotides = Monitor(), [], start_index, "", "ACGT"',
                                                'monitor, record_path, vertex_index, dna_sequence, nucleotides = Monitor(), [], start_index, "", "ACTG"'))
 V('alpha-decode-actg', CODER + ['C06'], 'R-ALPHA', SW, ('vertex_index, nucleotides, monitor = start_index, "ACGT", Monitor()', 'vertex_index, nucleotides, monitor = start_index, "ACTG", Monitor()'))
+
+# ---------------------------------------------------------------- re-introduced pinned defects
+V('defect-D1-no-dtype', ['C07', 'C01', 'C06'], 'R-TYPED', SW, ("for nucleotide in dna_sequence], dtype=int)", "for nucleotide in dna_sequence])"))
+V('defect-D3-keyword-call', ['C11'], 'R-IFACE', SW, ("bio_filter.valid(dna_sequence)", "bio_filter.valid(dna_sequence=dna_sequence)"))
+V('defect-D4-literal-10-a', ['C03', 'C13'], 'R-KPLUMB', SW, ("obtain_formers(useless_vertex, observed_length)", "obtain_formers(useless_vertex, 10)"))
+V('defect-D4-literal-10-b', ['C03', 'C13'], 'R-KPLUMB', SW, ("obtain_formers(former_index, observed_length)", "obtain_formers(former_index, 10)"))
+V('defect-D5-no-handler', ['C03'], 'R-EXC|R-ARB', SW, ("                try:\n                    cycle = find_cycle(graph)\n                except NetworkXNoCycle:\n                    break\n",
+                                                     "                cycle = find_cycle(graph)\n                if len(cycle) == 0:\n                    break\n"))
+V('defect-D5-all-edges', ['C03'], 'R-ARB', SW, ("                    if len(where(latter_indices >= 0)[0]) == 1:  # only arcs that carry no information.\n                        for latter_index in latter_indices:\n                            if latter_index >= 0:\n                                graph.add_edge(u_of_edge=former_index, v_of_edge=latter_index)",
+                                               "                    if len(where(latter_indices >= 0)[0]) >= 1:  # only arcs that carry no information.\n                        for latter_index in latter_indices:\n                            if latter_index >= 0:\n                                graph.add_edge(u_of_edge=former_index, v_of_edge=latter_index)"))
+
+# ---------------------------------------------------------------- R-SHIFT
+V('shift-latters-k-minus-1', ['C13', 'C02', 'C11', 'C03'], 'R-SHIFT', GR, ("% (len(nucleotides) ** observed_length))\n        latters.append", "% (len(nucleotides) ** (observed_length - 1)))\n        latters.append"))
+V('shift-latters-plus1', ['C13', 'C02', 'C11', 'C03'], 'R-SHIFT', GR, ("latter = int((current * len(nucleotides) + latter_value)", "latter = int((current * len(nucleotides) + latter_value + 1)"))
+V('shift-formers-mod', ['C13', 'C03'], 'R-SHIFT', GR, ("former = current // len(nucleotides) + former_value", "former = current % len(nucleotides) + former_value"))
+V('shift-formers-exp', ['C13', 'C03'], 'R-SHIFT', GR, ("former_value * int(len(nucleotides) ** (observed_length - 1))", "former_value * int(len(nucleotides) ** observed_length)"))
+V('shift-formers-range3', ['C13', 'C03'], 'R-SHIFT', GR, ("    for former_value in range(len(nucleotides)):", "    for former_value in range(len(nucleotides) - 1):"))
+V('shift-removed-arc-target', ['C13', 'C19'], 'R-SHIFT', SW, ("latter = int((former * len(nucleotides) + latter_value) % (len(nucleotides) ** observed_length))", "latter = int((former * len(nucleotides) + former_value) % (len(nucleotides) ** observed_length))"))
+
+# ---------------------------------------------------------------- R-KPLUMB
+V('kplumb-valid-graph-plus1', ['C11', 'C13', 'C02'], 'R-KPLUMB', SW, ("                latters = obtain_latters(current=vertex_index, observed_length=observed_length)\n                for position, latter_vertex_index in enumerate(latters):\n                    if vertices[latter_vertex_index]:\n                        accessor[vertex_index][position] = latter_vertex_index\n\n            if verbose:\n                monitor(vertex_index + 1, len(vertices))\n\n        if verbose:\n            print(\"Valid graph",
+                                                                           "                latters = obtain_latters(current=vertex_index, observed_length=observed_length + 1)\n                for position, latter_vertex_index in enumerate(latters):\n                    if vertices[latter_vertex_index]:\n                        accessor[vertex_index][position] = latter_vertex_index\n\n            if verbose:\n                monitor(vertex_index + 1, len(vertices))\n\n        if verbose:\n            print(\"Valid graph"))
+V('kplumb-score-default', ['C13', 'C19'], 'R-KPLUMB', SW, ("has_deletion=has_deletion,\n                                          observed_length=observed_length, verbose=verbose)", "has_deletion=has_deletion,\n                                          verbose=verbose)"))
+V('kplumb-find-vertices-literal', ['C11', 'C13', 'C02'], 'R-KPLUMB|R-MASK', SW, ("number_to_dna(decimal_number=vertex_index, dna_length=observed_length)", "number_to_dna(decimal_number=vertex_index, dna_length=2)"))
+V('kplumb-trim-literal', ['C03', 'C13', 'C02'], 'R-KPLUMB|R-ORD', SW, ("latter_indices = obtain_latters(current=vertex_index, observed_length=observed_length)", "latter_indices = obtain_latters(current=vertex_index, observed_length=2)"))
+
+# ---------------------------------------------------------------- R-MASK / R-IFACE / R-ORD(empty)
+V('mask-kmer-plus1', ['C11', 'C02'], 'R-MASK', SW, ("number_to_dna(decimal_number=vertex_index, dna_length=observed_length)", "number_to_dna(decimal_number=vertex_index + 1, dna_length=observed_length)"))
+V('mask-range-minus1', ['C11', 'C02'], 'R-MASK', SW, ("    for vertex_index in range(len(vertices)):\n        dna_sequence = number_to_dna", "    for vertex_index in range(len(vertices) - 1):\n        dna_sequence = number_to_dna"))
+V('mask-second-writer', ['C11', 'C02'], 'R-MASK', SW, ("    valid_rate = sum(vertices) / len(vertices)\n\n    if valid_rate == 0:", "    vertices[0] = True\n    valid_rate = sum(vertices) / len(vertices)\n\n    if valid_rate == 0:"))
+V('ord-find-vertices-lt0', ['C11'], 'R-ORD', SW, ("    if valid_rate == 0:\n        raise ValueError(\"No vertex is collected!\")", "    if valid_rate < 0:\n        raise ValueError(\"No vertex is collected!\")"))
+V('exc-find-vertices-runtime', ['C11'], 'R-EXC|R-ORD', SW, ("        raise ValueError(\"No vertex is collected!\")", "        raise RuntimeError(\"No vertex is collected!\")"))
+V('ord-valid-graph-ge0', ['C11'], 'R-ORD', SW, ("    if valid_rate > 0:\n        accessor = -ones(shape=(int(len(nucleotides) ** observed_length), len(nucleotides)), dtype=int)\n\n        for vertex_index", "    if valid_rate >= 0:\n        accessor = -ones(shape=(int(len(nucleotides) ** observed_length), len(nucleotides)), dtype=int)\n\n        for vertex_index"))
+V('exc-valid-graph-keyerror', ['C11'], 'R-EXC|R-ORD', SW, ("        raise ValueError(\"No collected vertex!\")\n\n\ndef connect_coding_graph", "        raise KeyError(\"No collected vertex!\")\n\n\ndef connect_coding_graph"))
+
+# ---------------------------------------------------------------- R-ARC
+VG_STORE = "                    if vertices[latter_vertex_index]:\n                        accessor[vertex_index][position] = latter_vertex_index\n\n            if verbose:\n                monitor(vertex_index + 1, len(vertices))\n\n        if verbose:\n            print(\"Valid graph"
+V('arc-valid-no-target-test', ['C11', 'C02'], 'R-ARC', SW, (VG_STORE, VG_STORE.replace("if vertices[latter_vertex_index]:", "if True:")))
+V('arc-valid-wrong-column', ['C11', 'C02', 'C13'], 'R-ARC', SW, (VG_STORE, VG_STORE.replace("accessor[vertex_index][position] = latter_vertex_index", "accessor[vertex_index][(position + 1) % 4] = latter_vertex_index")))
+V('arc-valid-wrong-value', ['C11', 'C02', 'C13'], 'R-ARC', SW, (VG_STORE, VG_STORE.replace("accessor[vertex_index][position] = latter_vertex_index", "accessor[vertex_index][position] = vertex_index")))
+V('arc-valid-no-source-test', ['C11', 'C02'], 'R-ARC', SW, ("            if vertices[vertex_index]:\n                latters = obtain_latters(current=vertex_index, observed_length=observed_length)\n                for position, latter_vertex_index in enumerate(latters):\n                    if vertices[latter_vertex_index]:\n                        accessor[vertex_index][position] = latter_vertex_index\n\n            if verbose:\n                monitor(vertex_index + 1, len(vertices))\n\n        if verbose:\n            print(\"Valid graph",
+                                                            "            if True:\n                latters = obtain_latters(current=vertex_index, observed_length=observed_length)\n                for position, latter_vertex_index in enumerate(latters):\n                    if vertices[latter_vertex_index]:\n                        accessor[vertex_index][position] = latter_vertex_index\n\n            if verbose:\n                monitor(vertex_index + 1, len(vertices))\n\n        if verbose:\n            print(\"Valid graph"))
+V('arc-coding-store-zero', ['C03', 'C13', 'C02'], 'R-ARC', SW, ("                    accessor[useless_vertex] = -1", "                    accessor[useless_vertex] = 0"))
+V('arc-coding-stale-vertices', ['C03'], 'R-ARC', SW, ("            while True:\n                vertices = obtain_vertices(accessor)\n                graph = DiGraph()", "            vertices = obtain_vertices(accessor)\n            while True:\n                graph = DiGraph()"))
+V('arc-lmap-enumerate-column', ['C14', 'C13'], 'R-ARC', GR, ("            for latter_vertex in latter_vertices:\n                accessor[former_vertex, latter_vertex % len(nucleotides)] = latter_vertex", "            for position, latter_vertex in enumerate(latter_vertices):\n                accessor[former_vertex, position] = latter_vertex"))
+V('arc-matrix-row-filtered', ['C14', 'C13'], 'R-ARC', GR, ("saved_information = [index if index in next_indices else -1 for index in reference_latters]", "saved_information = [index for index in reference_latters if index in next_indices] + [-1] * (4 - len(next_indices))"))
+V('arc-complete-alloc-rows', ['C13'], 'R-ARC', GR, ("accessor, monitor = -ones(shape=(int(4 ** observed_length), 4), dtype=int), Monitor()", "accessor, monitor = -ones(shape=(int(4 ** observed_length) + 1, 4), dtype=int), Monitor()"))
+
+# ---------------------------------------------------------------- R-ORD threshold / R-FIX / R-EXC in C03
+V('ord-threshold-gt', ['C03'], 'R-ORD', SW, ("sum(vertices[latter_indices]) >= threshold", "sum(vertices[latter_indices]) > threshold"))
+V('ord-useless-le', ['C03'], 'R-ORD', GR, ("            if len(latter_vertices) < threshold:", "            if len(latter_vertices) <= threshold:"))
+V('exc-coding-runtime', ['C03'], 'R-EXC', SW, ("            raise ValueError(\"No coding graph is created!\")\n\n        if not changed:", "            raise RuntimeError(\"No coding graph is created!\")\n\n        if not changed:"))
+V('fix-no-feedback', ['C03'], 'R-FIX', SW, ("        vertices = new_vertices\n        times += 1", "        times += 1"))
+V('fix-no-feedback-lmap', ['C03'], 'R-FIX', GR, ("        latter_map = new_latter_map\n\n        round_number += 1", "        round_number += 1"))
+V('fix-exit-inverted', ['C03'], 'R-FIX', SW, ("        if not changed:\n            break", "        if changed:\n            break"))
+V('twin-fix-empty-after-break', ['C03'], None, SW, ("        if sum(new_vertices) < 1:\n            raise ValueError(\"No coding graph is created!\")\n\n        if not changed:\n            break\n", "        if not changed:\n            break\n\n        if sum(new_vertices) < 1:\n            raise ValueError(\"No coding graph is created!\")\n"), kind='benign', note='the post-loop guard still raises ValueError for an empty result')
+V('fix-materialise-from-param', ['C03'], 'R-FIX', SW, ("    times, nucleotides = 1, \"ACGT\"\n\n    while True:\n        if verbose:\n            print(\"Check the vertex", "    times, nucleotides, original = 1, \"ACGT\", vertices\n\n    while True:\n        if verbose:\n            print(\"Check the vertex"),
+  ("            if vertices[vertex_index]:\n                latters = obtain_latters(current=vertex_index, observed_length=observed_length)\n                for position, latter_vertex_index in enumerate(latters):\n                    if vertices[latter_vertex_index]:\n                        accessor[vertex_index][position] = latter_vertex_index\n\n            if verbose:\n                monitor(vertex_index + 1, len(vertices))\n\n        if threshold",
+   "            if original[vertex_index]:\n                latters = obtain_latters(current=vertex_index, observed_length=observed_length)\n                for position, latter_vertex_index in enumerate(latters):\n                    if original[latter_vertex_index]:\n                        accessor[vertex_index][position] = latter_vertex_index\n\n            if verbose:\n                monitor(vertex_index + 1, len(vertices))\n\n        if threshold"))
+V('ctor-gt-accepts-all', ['C02'], 'R-ORD', BF, ("            if observed_length < max_homopolymer_runs:", "            if observed_length > max_homopolymer_runs * 100:"))
+V('ctor-motif-ge', ['C02'], 'R-ORD', BF, ("                if len(undesired_motif) > observed_length:", "                if len(undesired_motif) > observed_length + 1:"))
+
+# ---------------------------------------------------------------- R-LEGAL / R-BFS
+V('legal-test-deleted', ['C14'], 'R-LEGAL', GR, ("        if list(set(next_indices) | set(reference_latters)) != reference_latters:\n            raise ValueError(\"Wrong format in the adjacency matrix, \"\n                             + \"which cannot be converted to equivalent compressed accessor!\")\n", ""))
+V('legal-arm-pass', ['C14'], 'R-LEGAL|R-EXC', GR, ("            raise ValueError(\"Wrong format in the adjacency matrix, \"\n                             + \"which cannot be converted to equivalent compressed accessor!\")", "            pass"))
+V('bfs-depth-minus1', ['C14'], 'R-BFS', GR, ("    elif latter_map is not None:\n        for step in range(depth):", "    elif latter_map is not None:\n        for step in range(depth - 1):"))
+V('bfs-no-rebind', ['C14'], 'R-BFS', GR, ("                level += available_latters\n            branch = level", "                level += available_latters\n            pass"))
 
 # ---------------------------------------------------------------- benign twins (every property must stay exit 0)
 ALL = ['C%02d' % i for i in range(1, 21)]
